@@ -332,6 +332,55 @@ func c14Targets(c *run.C) {
 	c.Nontrivial(gen.Mix(142, gen.HashString(t.String())))
 }
 
+// nil targets: a typed nil pointer of a supported type has nothing to unfold
+// into; it must be refused (or every event must return an error), not panic.
+func c14NilTargets(c *run.C) {
+	r := c.R
+	base := []reflect.Type{reflect.TypeOf(0), gen.TIface, reflect.TypeOf((*int)(nil)), reflect.TypeOf([]int{}), reflect.TypeOf([]zoo.Plain{}), reflect.TypeOf(map[string]int{}),
+		reflect.TypeOf(map[string]zoo.Plain{}), reflect.TypeOf(zoo.Plain{}), reflect.TypeOf(""), reflect.TypeOf([]interface{}{}), reflect.TypeOf(map[string]interface{}{}), reflect.TypeOf(zoo.NamedInts{})}
+	t := base[c.Idx%len(base)]
+	viaSet := (c.Idx/len(base))%2 == 1
+	nilPtr := reflect.Zero(reflect.PtrTo(t)).Interface() // (*T)(nil)
+	c.Begin(refusalCase{"(*" + t.String() + ")(nil)", map[bool]string{true: "SetTarget", false: "NewUnfolder"}[viaSet], nil})
+	var u *gotype.Unfolder
+	var err error
+	if !c.Guard("nil-target", func() {
+		if viaSet {
+			u, err = gotype.NewUnfolder(nil)
+			if err == nil {
+				err = u.SetTarget(nilPtr)
+			}
+		} else {
+			u, err = gotype.NewUnfolder(nilPtr)
+		}
+	}) {
+		return
+	}
+	if err != nil {
+		c.Observe("nil_targets_refused", 1)
+		c.Nontrivial(gen.Mix(143, uint64(c.Idx)))
+		return
+	}
+	// accepted: then the events of any document must fail cleanly
+	v := (&gen.ValueGen{R: r, O: gen.GoValueOpts{MaxLen: 2}}).Value(t, 0)
+	mv, merr := model.Fold(v, nil)
+	if merr != nil {
+		return
+	}
+	em := &emitter{r: r}
+	em.emit(mv)
+	var uerr error
+	if !c.Guard("unfold.nil-target", func() { uerr = mon.Replay(em.out, u, mon.ReplayOpts{}) }) {
+		return
+	}
+	if uerr == nil {
+		c.Violationf("accepted-unsupported", "unfold:nil-target-accepted", "a document was unfolded 'successfully' into the nil pointer (*%s)(nil)", t)
+		return
+	}
+	c.Observe("nil_targets_failing_cleanly", 1)
+	c.Nontrivial(gen.Mix(143, uint64(c.Idx)))
+}
+
 func c14Suites(build string) []*run.Suite {
 	sfx := ""
 	div := 1
@@ -342,7 +391,8 @@ func c14Suites(build string) []*run.Suite {
 	return []*run.Suite{
 		{Name: "mismatch" + sfx, Build: build, N: tierN(150000/div, 4000000/div), Case: c14Mismatch, Require: []string{"mismatch_errors", "mismatch_accepted", "how_huge-announced-length"}},
 		{Name: "abandon" + sfx, Build: build, N: tierN(12000/div, 300000/div), Case: c14Abandon, Require: []string{"abandon_points", "probes_accepted"}},
-		{Name: "targets" + sfx, Build: build, N: tierN(16, 16), Case: c14Targets, Require: []string{"unsupported_targets_refused"}},
+		{Name: "targets" + sfx, Build: build, N: tierN(32, 32), Case: c14Targets, Require: []string{"unsupported_targets_refused"}},
+		{Name: "nil-targets" + sfx, Build: build, N: tierN(48, 480), Case: c14NilTargets, Require: []string{"nil_targets_refused"}},
 	}
 }
 
